@@ -65,11 +65,11 @@ def plans(prop: str, tier: str) -> list[dict]:
     return out
 
 
-def _replay_chunk(arg: tuple) -> tuple[int, int, list]:
+def _replay_chunk(arg: tuple) -> tuple[int, int, int, list]:
     hname, check, layouts, items = arg
     h = listhost.HOSTS[hname]
     out = []
-    steps = replays = 0
+    steps = replays = drift = 0
     for k, s in items:
         beh = json.loads(s)
         for layout in (range(h.n_layouts) if layouts == 'all' else [k % h.n_layouts]):
@@ -77,13 +77,14 @@ def _replay_chunk(arg: tuple) -> tuple[int, int, list]:
                 r = listreplay.Replay(h, beh, layout, check=set(check))
                 f = r.run()
                 steps += r.steps_done
+                drift += r.drift
                 replays += 1
             except Exception as e:  # noqa: BLE001
                 out.append(('machinery', f'{hname} layout {layout}: {type(e).__name__}: {e}', beh, 0, layout))
                 continue
             for step, kind, fp, msg in f:
                 out.append((kind, fp, {'step': step, 'layout': layout, 'what': msg, 'behaviour': beh}, 0, layout))
-    return replays, steps, out
+    return replays, steps, drift, out
 
 
 def main(prop: str, tier: str, rep: common.Reporter | None = None, finish: bool = True) -> Any:
@@ -91,7 +92,7 @@ def main(prop: str, tier: str, rep: common.Reporter | None = None, finish: bool 
     rep = rep or common.Reporter(prop, tier)
     check = KINDS[prop]
     seed = common.seed()
-    states = transitions = replays = steps = behaviours = 0
+    states = transitions = replays = steps = behaviours = drift = 0
     runs = []
     samples: list = []
     with mp.Pool(16) as pool:
@@ -113,7 +114,8 @@ def main(prop: str, tier: str, rep: common.Reporter | None = None, finish: bool 
             if behs and len(samples) < 3:
                 samples.append({'host': h.name, 'behaviour': json.loads(behs[len(behs) // 2])})
             jobs = [(h.name, sorted(check), plan['layouts'], ch) for ch in common.chunked(list(enumerate(behs)), 100)]
-            for nrep, nsteps, out in pool.imap_unordered(_replay_chunk, jobs):
+            for nrep, nsteps, ndrift, out in pool.imap_unordered(_replay_chunk, jobs):
+                drift += ndrift
                 replays += nrep
                 steps += nsteps
                 for kind, fp, detail, _, _ in out:
@@ -132,7 +134,7 @@ def main(prop: str, tier: str, rep: common.Reporter | None = None, finish: bool 
         'states': (rep.cov.get('states', 0) + states) or 1,
         'transitions': (rep.cov.get('transitions', 0) + transitions) or 1,
         'traces_validated_against_impl': rep.cov.get('traces_validated_against_impl', 0) + replays,
-        'replist_behaviours': behaviours, 'replist_replays': replays, 'replist_steps': steps,
+        'replist_behaviours': behaviours, 'replist_replays': replays, 'replist_steps': steps, 'replist_drift': drift,
         'replist_runs': runs,
         'samples': rep.cov.get('samples', []) + samples,
     })
